@@ -11,10 +11,14 @@ func init() {
 
 // VerifHarness_C02_chain: longer histories of one controller.
 // variant 0: scan 1 is an accepted scale-up; its cool-down elapses; scan 2 meets an arbitrary
-//   cluster and may get another scale-up accepted; scan 3 follows after a symbolic gap and must
-//   leave the group alone while that second cool-down runs.
+//
+//	cluster and may get another scale-up accepted; scan 3 follows after a symbolic gap and must
+//	leave the group alone while that second cool-down runs.
+//
 // variant 1: scan 1 is an accepted scale-up (cool-down 15 s); scan 2 follows within 2 s and its
-//   cloud refresh fails once (escalator sleeps 5 s and rebuilds the provider): the lock must survive.
+//
+//	cloud refresh fails once (escalator sleeps 5 s and rebuilds the provider): the lock must survive.
+//
 // shape: [nodes, variant]
 func VerifHarness_C02_chain() {
 	N, variant := verifShape(0), verifShape(1)
@@ -88,8 +92,10 @@ func VerifHarness_C02_chain() {
 // Inside the cool-down of an accepted request scan 2 must not change the
 // group; after it (or after a refused request) it must act again.
 // shape: [nodes, scan-1 outcome (0 accepted, 1 refused by cloud max, 2 covered by untainting alone, 3 one node untainted and the rest refused), class menu for scan 2,
-//         fleet (1 = launch-template mode: the cloud call of scan 1 blocks ~2 s until the instances are ready),
-//         failure budget of scan 1 (any one API call of the scan, cloud or Kubernetes, may fail)]
+//
+//	fleet (1 = launch-template mode: the cloud call of scan 1 blocks ~2 s until the instances are ready),
+//	failure budget of scan 1 (any one API call of the scan, cloud or Kubernetes, may fail),
+//	auto-discovered bounds with the cloud group's limits edited between the scans (0/1)]
 func VerifHarness_C02() {
 	N, refused, menu, fleet, F1 := verifShape(0), verifShape(1), verifShape(2), verifShape(3), verifShape(4)
 	w := newWorld(0)
@@ -109,11 +115,19 @@ func VerifHarness_C02() {
 		extraT = 1 // scan 1 untaints one node and the cloud refuses the rest (group at its maximum)
 		asgMax = int64(N + extraT)
 	}
+	autoLimits := verifShape(5) == 1 // bounds auto-discovered; the cloud group's limits are edited between the scans
+	if autoLimits {
+		o.MinNodes, o.MaxNodes = 0, 0
+	}
 	if fleet == 1 {
 		o.AWS.LaunchTemplateID, o.AWS.LaunchTemplateVersion = "lt-1", "1"
 		o.AWS.FleetInstanceReadyTimeout = "2500ms"
 	}
-	g := w.addGroup(o, 0, asgMax, 0)
+	asgMin := int64(0)
+	if autoLimits {
+		asgMin = 1
+	}
+	g := w.addGroup(o, asgMin, asgMax, 0)
 	if fleet == 1 {
 		w.EC2.ReadyAfter = 2 // ready at the second 1 s poll: the request is accepted ~2 s after it was made
 	}
@@ -155,6 +169,21 @@ func VerifHarness_C02() {
 
 	gap := verifInt("gap", 0, cd+2)
 	verifSleepSeconds(gap)
+	if autoLimits {
+		asg1 := w.AS.Group(o.CloudProviderGroupName)
+		switch verifChoice("limitsEdit", 3) {
+		case 1:
+			asg1.Max += 5
+			asgMax += 5
+		case 2:
+			asg1.Min = 2
+		}
+	}
+	minEff, maxEff := int64(o.MinNodes), int64(o.MaxNodes)
+	if autoLimits {
+		ag := w.AS.Group(o.CloudProviderGroupName)
+		minEff, maxEff = ag.Min, ag.Max
+	}
 
 	// the cluster scan 2 sees
 	classes := [][]int{{tcNone, tcEsc}, {tcNone, tcEsc, tcForce}}[menu]
@@ -185,19 +214,19 @@ func VerifHarness_C02() {
 	verifAssert("C02.no-activity-in-cooldown", verifImplies(inside, j2.total == 0))
 	verifReachIf("C02.in-cooldown-last-second", verifAnd(inside, gap+1 == cd))
 	verifReachIf("C02.in-cooldown", inside)
-	verifReachIf("C02.in-cooldown-below-min", verifAnd(inside, s.untainted < int64(o.MinNodes)))
+	verifReachIf("C02.in-cooldown-below-min", verifAnd(inside, s.untainted < minEff))
 
 	// after the cool-down, or when nothing was accepted, the group is acted on again
 	free := verifOr(!accepted, gap >= cd+1)
 	T := int64(o.ScaleUpThresholdPercent)
 	// with the cloud group at its maximum no request can be made
 	asg2 := w.AS.Group(o.CloudProviderGroupName)
-	headroom := asg2.Desired < asgMax && asg2.Desired < int64(o.MaxNodes)
-	overloaded := verifAnd(verifAnd(headroom, s.untainted >= int64(o.MinNodes)), verifAnd(s.untainted > 0, clearlyAbove(100*s.cpuReq, T*s.cpuCap)))
+	headroom := asg2.Desired < asgMax && asg2.Desired < maxEff
+	overloaded := verifAnd(verifAnd(headroom, s.untainted >= minEff), verifAnd(s.untainted > 0, clearlyAbove(100*s.cpuReq, T*s.cpuCap)))
 	verifAssert("C02.acts-again-after-cooldown(scale-up)", verifImplies(verifAnd(free, overloaded), j2.untaintAttempts+j2.increaseAttempts >= 1))
-	belowMin := verifAnd(s.untainted < int64(o.MinNodes), verifOr(headroom, s.tainted > 0))
+	belowMin := verifAnd(s.untainted < minEff, verifOr(headroom, s.tainted > 0))
 	verifAssert("C02.acts-again-after-cooldown(below-min)", verifImplies(verifAnd(free, belowMin), j2.untaintAttempts+j2.increaseAttempts >= 1))
-	lowBand := verifAnd(verifAnd(s.untainted > int64(o.MinNodes), s.untainted > 0), clearlyBelow(100*s.cpuReq, int64(o.TaintLowerCapacityThresholdPercent)*s.cpuCap))
+	lowBand := verifAnd(verifAnd(s.untainted > minEff, s.untainted > 0), clearlyBelow(100*s.cpuReq, int64(o.TaintLowerCapacityThresholdPercent)*s.cpuCap))
 	verifAssert("C02.acts-again-after-cooldown(scale-down)", verifImplies(verifAnd(free, lowBand), j2.taintAttempts >= 1))
 	verifReachIf("C02.released", verifAnd(accepted, verifAnd(gap >= cd+1, j2.total > 0)))
 }
